@@ -39,6 +39,7 @@ type CallEnv struct {
 	SeenSeq        map[string]int     // graph path -> logical time of that observation
 	seenSeq        int
 	Hook           func(ctx context.Context, n *NodeSpec, tag string, in string) // optional extra instrumentation
+	Cancel         context.CancelFunc // called by a body with Fault == cancel
 }
 
 // Event is the start or the end of one body execution.
@@ -168,6 +169,10 @@ func body(ctx context.Context, n *NodeSpec, tag string, in string) (string, erro
 		return "", fmt.Errorf("wrapped: %w", &InjectedError{Node: tag})
 	case "panic":
 		panic("injected panic in " + tag)
+	case "cancel":
+		if env.Cancel != nil {
+			env.Cancel()
+		}
 	}
 	out := F(tag, n.Digest, in)
 	env.event(Event{Node: tag, Phase: "end", In: in, Out: out})
@@ -294,7 +299,7 @@ func mkLambda[I any](n *NodeSpec, tag string) *compose.Lambda {
 		chunks = 1
 	}
 	nodeBody := func(ctx context.Context, in string) (string, error) {
-		if n.Fault == "streamerr" {
+		if n.Fault == "streamerr" || n.Fault == "streampanic" {
 			// recorded like a normal execution; the failure is delivered on the stream
 			nn := *n
 			nn.Fault = ""
@@ -304,12 +309,28 @@ func mkLambda[I any](n *NodeSpec, tag string) *compose.Lambda {
 	}
 	outStream := func(ctx context.Context, s string) *schema.StreamReader[string] {
 		parts := chunk(s, chunks)
+		if n.Fault == "streampanic" {
+			cnt := 0
+			return schema.StreamReaderWithConvert(schema.StreamReaderFromArray(append(parts, "")), func(x string) (string, error) {
+				cnt++
+				if cnt == len(parts)+1 {
+					panic("injected panic in stream of " + tag)
+				}
+				return x, nil
+			})
+		}
 		if n.Fault == "streamerr" {
 			return streamOf(parts, len(parts)/2, fmt.Errorf("wrapped: %w", &InjectedError{Node: tag}))
 		}
 		return streamOf(parts, -1, nil)
 	}
 	inv := func(ctx context.Context, in I, _ ...any) (string, error) {
+		if n.Fault == "streampanic" {
+			if _, err := nodeBody(ctx, Canon(any(in))); err != nil {
+				return "", err
+			}
+			panic("injected panic in stream of " + tag)
+		}
 		if n.Fault == "streamerr" {
 			if _, err := nodeBody(ctx, Canon(any(in))); err != nil {
 				return "", err
@@ -333,6 +354,12 @@ func mkLambda[I any](n *NodeSpec, tag string) *compose.Lambda {
 		v, err := ConcatAny(cs)
 		if err != nil {
 			return "", err
+		}
+		if n.Fault == "streampanic" {
+			if _, err := nodeBody(ctx, Canon(v)); err != nil {
+				return "", err
+			}
+			panic("injected panic in stream of " + tag)
 		}
 		if n.Fault == "streamerr" {
 			if _, err := nodeBody(ctx, Canon(v)); err != nil {
